@@ -317,6 +317,9 @@ def run(ctx):
         if finite_all and len(d) > 0 and rng.random() < 0.5:
             try:
                 iv0 = np.array(d.ivar.value, copy=True)
+                twin = d.copy()                                   # an independent copy: what happens to d must not reach it
+                twin_err0 = np.array(twin.rv_err.value, copy=True)
+                twin_rv0 = np.array(twin.rv.value, copy=True)
                 fac = float(rng.choice([2.0, 3.0, 0.5]))
                 if rng.random() < 0.5:
                     d.rv_err = d.rv_err * (fac ** 2 if d._has_cov else fac)
@@ -325,6 +328,11 @@ def run(ctx):
                 iv1 = np.asarray(d.ivar.value)
                 ctx.evaluations += 1
                 ops.append("ivar-after-rescale")
+                d.rv *= 1.0                                        # (an in-place no-op on the velocities as well)
+                if not (np.array_equal(np.asarray(twin.rv_err.value), twin_err0) and np.array_equal(np.asarray(twin.rv.value), twin_rv0)
+                        and np.allclose(np.asarray(twin.ivar.value), iv0, rtol=1e-12, atol=0)):
+                    ctx.violation("copy-shares-buffers", "changing the uncertainties of an object in place changed its copy() too "
+                                  "(the copy does not hold its own arrays)", desc)
                 rt = 1e-12 if np.asarray(d.rv_err.value).dtype.itemsize >= 8 else 1e-5
                 if not np.allclose(iv1, iv0 / fac ** 2, rtol=max(rt, 1e-9 * (np.linalg.cond(d.rv_err.value) if d._has_cov else 1)), atol=0):
                     ctx.violation("ivar-stale-after-rescale", "after scaling rv_err by %g the inverse variance is not 1/%g^2 of the "
